@@ -6,7 +6,7 @@ from harness.common import load_findings
 
 def _sizes(tier, k):
     if tier == "quick":
-        return {2: [2, 3], 3: [3]}.get(k, [k + 1])
+        return {2: [2, 3], 3: [4]}.get(k, [k + 1])
     return {2: [2, 3, 4, 5], 3: [3, 4, 5], 4: [4, 5]}.get(k, [k + 1])
 
 
